@@ -18,6 +18,7 @@ package mcp
 //@ func newJSONRPCNotification
 //@   pure
 //@   ensures result != nil && result.JSONRPC == "2.0" && result.Notification.Method == notification.Method
+//@   ensures[C10 params-carried-over-unchanged] result.Notification.Params.AdditionalFields == notification.Params.AdditionalFields && result.Notification.Params.Meta == notification.Params.Meta
 
 //@ pred inslice(s []string, x string) = exists i int :: 0 <= i && i < len(s) && s[i] == x
 
@@ -1001,3 +1002,44 @@ package mcp
 //@   ensures[C08 no-error-means-a-result] ret1 == nil ==> ret != nil
 //@ func sseClientTransport.sendRequestInternal
 //@   ensures[C08 no-error-means-a-result] ret1 == nil ==> ret != nil
+
+// ---------------------------------------------------------------------------
+// C10 — in-call notifications: one id generator per stream, every event carries a
+// freshly generated id of that generator, parameters are not lost on the way out,
+// and the client dispatches each decoded notification exactly once.
+
+//@ func httpServerHandler.handlePostRequest
+//@   before call handleRequest#1 assert[C10 one-id-generator-per-stream] notificationSender.sseWriter == sseResponder.sseWriter
+//@ func sseNotificationSender.SendCustomNotification
+//@   before call WriteEvent#1 assert[C10 event-id-freshly-generated-by-the-senders-generator] arg2.ID == lastgen && lastgenw == s.sseWriter && gens == old(gens) + 1
+//@ func sseNotificationSender.SendNotification
+//@   before call WriteEvent#1 assert[C10 event-id-freshly-generated-by-the-senders-generator] arg2.ID == lastgen && lastgenw == s.sseWriter && gens == old(gens) + 1
+//@ func sseResponder.sendSSEEvent
+//@   before call WriteEvent#1 assert[C10 event-id-freshly-generated-by-the-responders-generator] arg2.ID == lastgen && lastgenw == r.sseWriter && gens == old(gens) + 1
+//@ func sseResponder.sendSSEMessage
+//@   before call WriteEvent#1 assert[C10 event-id-freshly-generated-by-the-responders-generator] arg2.ID == lastgen && lastgenw == r.sseWriter && gens == old(gens) + 1
+//@   ensures[C10 returned-id-is-the-id-written] ret1 == nil ==> ret == lastgen
+//@ func sseNotificationSender.SendCustomNotification
+//@   before call Marshal#1 assert[C10 method-and-every-parameter-reach-the-wire-message] jsonNotification.Method == method && jsonNotification.JSONRPC == "2.0" && (forall k string :: k != "_meta" && old(k in params) ==> (k in jsonNotification.Params.AdditionalFields) && jsonNotification.Params.AdditionalFields[k] == old(params[k]))
+//@   before call Marshal#1 assert[C10 meta-is-kept-as-meta-or-as-a-plain-field] old("_meta" in params) ==> (istype(old(params["_meta"]), map[string]interface{}) ? same(jsonNotification.Params.Meta, old(params["_meta"]).(map[string]interface{})) : (("_meta" in jsonNotification.Params.AdditionalFields) && jsonNotification.Params.AdditionalFields["_meta"] == old(params["_meta"])))
+
+// client side: each decoded notification goes exactly once to the handler registered for its method
+//@ ghost stable notifcalls int
+//@ callspec NotificationHandler
+//@   counted notifcalls
+//@   modifies *, notifcalls
+//@
+//@ func streamableHTTPClientTransport.handleNotificationMessage
+//@   modifies *, notifcalls
+//@   before call handler#1 assert[C10 dispatched-to-the-handler-registered-for-the-decoded-method] (notification.Method in handlers) && handler == handlers[notification.Method] && arg0.Method == notification.Method && arg0.Params.AdditionalFields == notification.Params.AdditionalFields && arg0.Params.Meta == notification.Params.Meta
+//@   ensures[C10 a-notification-is-never-taken-for-the-result] ret == nil
+//@   ensures[C10 at-most-one-dispatch-per-notification] notifcalls <= old(notifcalls) + 1
+//@ func streamableHTTPClientTransport.processEventData
+//@   counted pedcalls
+//@   modifies *, notifcalls, pedcalls
+//@   ensures[C10 at-most-one-dispatch-per-event] notifcalls <= old(notifcalls) + 1
+//@   ensures[C10 a-result-is-not-also-dispatched-as-a-notification] ret != nil ==> notifcalls == old(notifcalls)
+//@ func streamableHTTPClientTransport.handleSSEResponse
+//@   modifies *, notifcalls, pedcalls, pedsnap, lastline, bodyclosed(httpResp.Body)
+//@   loop 3 invariant[C10 every-data-line-read-so-far-was-processed-exactly-once] rdprog > old(rdprog) ==> (hasPrefix(strings.TrimSpace(lastline), "data:") ? pedcalls == pedsnap + 1 : pedcalls == pedsnap)
+//@   before call processEventData#1 assert[C10 the-event-data-is-what-follows-the-data-prefix-of-the-line-just-read] hasPrefix(strings.TrimSpace(lastline), "data:") && pedcalls == pedsnap
